@@ -22,6 +22,8 @@ import (
 	"runtime"
 	"sort"
 	"strings"
+	"sync"
+	"sync/atomic"
 	"time"
 
 	pkgerrors "github.com/pkg/errors"
@@ -65,6 +67,12 @@ type c17Case struct {
 	Wrap      bool     `json:"wrap,omitempty"` // recording Registerer around the real registry
 	Pre       []c17Fam `json:"pre,omitempty"`
 	Ops       []c17Op  `json:"ops"`
+	// mode 2: G goroutines first-use, at once, the metric of kind Kinds[r] named
+	// after round r with tag g=<goroutine>; ViaScope: through Tagged sub-scopes
+	G        int   `json:"g,omitempty"`
+	Kinds    []int `json:"kinds,omitempty"`
+	ViaScope bool  `json:"via_scope,omitempty"`
+	Salt     int   `json:"salt,omitempty"`
 }
 
 // ---------------------------------------------------------------- environment
@@ -98,6 +106,7 @@ type c17Env struct {
 	cbErrs []error
 	cbObs  int64
 	cleanup func()
+	mu     sync.Mutex // the callback may be reached from several goroutines (mode 2)
 }
 
 func c17Class(err error) int64 {
@@ -146,6 +155,8 @@ func c17NewEnv(c *c17Case) (*c17Env, []int64) {
 		}
 	}
 	fn := func(err error) {
+		e.mu.Lock()
+		defer e.mu.Unlock()
 		n := len(e.cbLog)
 		cls := c17Class(err)
 		e.cbLog = append(e.cbLog, cls)
@@ -868,6 +879,190 @@ func c17CheckValues(c *c17Case, objs []*c17Obj, fams []*dto.MetricFamily, defb [
 	return "", ""
 }
 
+// ---------------------------------------------------------------- concurrent first uses
+
+// c17RunConc: per round, G goroutines leave a spin barrier together and
+// first-use the SAME name (same tag keys, tag value = goroutine index) at once,
+// then report through what they got.  Nothing conflicts, so: no callback
+// invocation, no panic, and after a report pass every series is there with
+// its value.  The events are those of the sequential history "round by round,
+// goroutine by goroutine" — the model's answer does not depend on the order.
+func c17RunConc(c *c17Case) (out c17Out) {
+	if runtime.GOMAXPROCS(0) < 2 {
+		runtime.GOMAXPROCS(4)
+	}
+	env := *c
+	env.Mode, env.Cb, env.CbMask, env.Wrap = 1, "fn", 0, false
+	e, rb := c17NewEnv(&env)
+	out.in = c17PreEvents(&env, rb)
+	G, R := c.G, len(c.Kinds)
+	var root tally.Scope
+	var closer io.Closer
+	if c.ViaScope {
+		root, closer = tally.NewRootScope(tally.ScopeOptions{CachedReporter: e.rep, Separator: tp.DefaultSeparator,
+			SanitizeOptions: &tp.DefaultSanitizerOpts, OmitCardinalityMetrics: true}, 0)
+	}
+	names := make([]string, R)
+	for r := range names {
+		names[r] = fmt.Sprintf("cc%d_k%d_r%d", c.Salt, c.Kinds[r], r)
+	}
+	tags := make([]map[string]string, G)
+	scopes := make([]tally.Scope, G)
+	for g := range tags {
+		tags[g] = map[string]string{"g": fmt.Sprint(g)}
+		if c.ViaScope {
+			scopes[g] = root.Tagged(tags[g])
+		}
+	}
+	spec := tally.ValueBuckets{0.25, 1}
+	arrived := make([]int32, R)
+	panics := make([]string, G)
+	var wg sync.WaitGroup
+	for g := 0; g < G; g++ {
+		wg.Add(1)
+		go func(g int) {
+			defer wg.Done()
+			for r := 0; r < R; r++ {
+				atomic.AddInt32(&arrived[r], 1)
+				for atomic.LoadInt32(&arrived[r]) < int32(G) {
+				}
+				func() {
+					defer func() {
+						if p := recover(); p != nil && panics[g] == "" {
+							panics[g] = fmt.Sprintf("round %d: %v", r, p)
+						}
+					}()
+					if c.ViaScope {
+						switch c.Kinds[r] {
+						case 1:
+							scopes[g].Counter(names[r]).Inc(int64(g + 1))
+						case 2:
+							scopes[g].Gauge(names[r]).Update(float64(g) + 0.5)
+						case 3:
+							scopes[g].Timer(names[r]).Record(time.Duration(g+1) * time.Millisecond)
+						default:
+							h := scopes[g].Histogram(names[r], spec)
+							for i := 0; i <= g; i++ {
+								h.RecordValue(0.25)
+							}
+						}
+						return
+					}
+					switch c.Kinds[r] {
+					case 1:
+						e.rep.AllocateCounter(names[r], tags[g]).ReportCount(int64(g + 1))
+					case 2:
+						e.rep.AllocateGauge(names[r], tags[g]).ReportGauge(float64(g) + 0.5)
+					case 3:
+						e.rep.AllocateTimer(names[r], tags[g]).ReportTimer(time.Duration(g+1) * time.Millisecond)
+					default:
+						e.rep.AllocateHistogram(names[r], tags[g], spec).ValueBucket(0, 0.25).ReportSamples(int64(g + 1))
+					}
+				}()
+			}
+		}(g)
+	}
+	wg.Wait()
+	setFail := func(what string) {
+		if out.fail == "" {
+			out.pred, out.fail = "concurrent_first_use", what
+		}
+	}
+	for g, p := range panics {
+		if p != "" {
+			setFail(fmt.Sprintf("goroutine %d panicked: %s", g, p))
+		}
+	}
+	if c.ViaScope && out.fail == "" {
+		tally.VerifReportOnce(root)
+	}
+	// the equivalent sequential history, for the model
+	h := 0
+	for r := 0; r < R; r++ {
+		for g := 0; g < G; g++ {
+			k := c.Kinds[r]
+			in := Ev{K: 11, I: []int64{int64(k)}, S: []string{names[r], "g", fmt.Sprint(g)}}
+			var rep Ev
+			switch k {
+			case 1:
+				rep = Ev{K: 12, I: []int64{int64(h), 1, int64(g + 1), 0}}
+			case 2:
+				rep = Ev{K: 12, I: []int64{int64(h), 2, fbits(float64(g) + 0.5), 0}, F: 4}
+			case 3:
+				rep = Ev{K: 12, I: []int64{int64(h), 3, fbits(secOf(int64(time.Duration(g+1) * time.Millisecond))), 1}, F: 4}
+			default:
+				in.I = []int64{4, fbits(0.25), fbits(1)}
+				in.F = 6
+				rep = Ev{K: 12, I: []int64{int64(h), 3, fbits(0.25), int64(g + 1)}, F: 4}
+			}
+			out.in = append(out.in, in, rep)
+			out.obs = append(out.obs, Ev{K: 10, I: []int64{0}})
+			h++
+		}
+	}
+	e.mu.Lock()
+	cb := append([]int64{}, e.cbLog...)
+	first := ""
+	if len(e.cbErrs) > 0 {
+		first = e.cbErrs[0].Error()
+	}
+	e.mu.Unlock()
+	out.obs = append(out.obs, Ev{K: 11, I: cb})
+	gv, fams, nerr := c17Gather(e.reg)
+	out.fams = fams
+	out.obs = append(out.obs, gv...)
+	out.params = []int64{1, int64(c.TimerType), 0, 1}
+	if len(cb) != 0 {
+		setFail(fmt.Sprintf("%d registration errors reached the callback although nothing conflicts; first: %s", len(cb), first))
+	}
+	if nerr != 0 {
+		setFail("Gather returned an error")
+	}
+	// direct predicate: every family has its G series with the recorded values
+	byName := map[string]*dto.MetricFamily{}
+	for _, f := range fams {
+		byName[f.GetName()] = f
+	}
+	for r := 0; r < R && out.fail == ""; r++ {
+		f := byName[names[r]]
+		if f == nil || len(f.GetMetric()) != G {
+			n := 0
+			if f != nil {
+				n = len(f.GetMetric())
+			}
+			setFail(fmt.Sprintf("%s: %d series gathered, %d goroutines recorded with distinct tag values", names[r], n, G))
+			break
+		}
+		for _, m := range f.GetMetric() {
+			var g int
+			fmt.Sscan(m.GetLabel()[0].GetValue(), &g)
+			ok := true
+			switch c.Kinds[r] {
+			case 1:
+				ok = m.GetCounter().GetValue() == float64(g+1)
+			case 2:
+				ok = m.GetGauge().GetValue() == float64(g)+0.5
+			case 3:
+				if c.TimerType == 0 {
+					ok = m.GetSummary().GetSampleCount() == 1
+				} else {
+					ok = m.GetHistogram().GetSampleCount() == 1
+				}
+			default:
+				hh := m.GetHistogram()
+				ok = hh.GetSampleCount() == uint64(g+1) && len(hh.GetBucket()) == 2 && hh.GetBucket()[0].GetCumulativeCount() == uint64(g+1)
+			}
+			if !ok {
+				setFail(fmt.Sprintf("%s{g=%d}: gathered value does not match what goroutine %d recorded", names[r], g, g))
+			}
+		}
+	}
+	if closer != nil && out.fail == "" {
+		closer.Close()
+	}
+	return
+}
+
 // c17MayHitF17: some (name, label keys) is used both summary-flavoured and
 // histogram-flavoured — the only way to reach the shared timers cache with
 // the other flavour (finding F17 on the pinned tree).
@@ -940,13 +1135,50 @@ func c17GenVSpec(r *Rng) []int64 {
 	return out
 }
 
+// millisecond-granular bounds in (1s, 20s) for which time.Duration.Seconds()
+// (whole seconds + fraction) and the documented float64(d)/float64(time.Second)
+// differ by an ulp: a conversion that is not the documented one shows there
+var c17OddMs = func() []int64 {
+	var out []int64
+	for ms := int64(1001); ms < 20000; ms++ {
+		d := time.Duration(ms) * time.Millisecond
+		if d.Seconds() != float64(d)/float64(time.Second) {
+			out = append(out, int64(d))
+		}
+	}
+	return out
+}()
+
 // strictly increasing durations whose seconds (with the overflow bucket's
 // bound) are strictly increasing too — what Prometheus accepts
 func c17GenDSpec(r *Rng) []int64 {
+	var cand []int64
+	if r.Chance(60) {
+		// millisecond-granular and other non-round bounds
+		n := r.Range(1, 6)
+		for i := 0; i < n; i++ {
+			switch x := r.Intn(10); {
+			case x < 4 && len(c17OddMs) > 0:
+				cand = append(cand, c17OddMs[r.Intn(len(c17OddMs))])
+			case x < 7:
+				cand = append(cand, int64(r.Range(1001, 19999))*int64(time.Millisecond))
+			case x < 8:
+				cand = append(cand, int64(r.Range(1, 999))*int64(time.Millisecond))
+			case x < 9:
+				cand = append(cand, int64(r.U64()%uint64(20*time.Second)))
+			default:
+				cand = append(cand, int64(r.U64()%uint64(400*time.Hour)))
+			}
+		}
+		sort.Slice(cand, func(i, j int) bool { return cand[i] < cand[j] })
+	} else {
+		for _, i := range r.c17Subset(len(c17DBounds), 6) {
+			cand = append(cand, c17DBounds[i])
+		}
+	}
 	var out []int64
 	last := math.Inf(-1)
-	for _, i := range r.c17Subset(len(c17DBounds), 6) {
-		d := c17DBounds[i]
+	for _, d := range cand {
 		if s := secOf(d); s > last && s < secOf(math.MaxInt64) {
 			out = append(out, d)
 			last = s
@@ -982,21 +1214,34 @@ func c17VSample(r *Rng, spec []int64) int64 {
 }
 
 func c17DSample(r *Rng, spec []int64) int64 {
-	b := spec[r.Intn(len(spec))]
-	switch r.Intn(7) {
-	case 0:
+	k := r.Intn(len(spec))
+	b := spec[k]
+	switch r.Intn(9) {
+	case 0, 1:
 		return b
-	case 1:
+	case 2:
 		if b < math.MaxInt64 {
 			return b + 1
 		}
-	case 2:
+	case 3:
 		if b > math.MinInt64 {
 			return b - 1
 		}
-	case 3:
+	case 4, 5:
+		// strictly inside the bucket that ends at b
+		lo := b
+		if k > 0 {
+			lo = spec[k-1]
+		} else if b > math.MinInt64+int64(2*time.Second) {
+			lo = b - int64(2*time.Second)
+		}
+		if lo < b-1 && b-lo > 0 {
+			return lo + 1 + int64(r.U64()%uint64(b-lo-1))
+		}
+		return b
+	case 6:
 		return []int64{math.MaxInt64, math.MinInt64, 0, -1}[r.Intn(4)]
-	case 4:
+	case 7:
 		return int64(r.U64())
 	}
 	return int64(r.U64() % (1 << 42))
@@ -1363,6 +1608,11 @@ func c17Class0(c *c17Case) string {
 	m := "scope"
 	if c.Mode == 1 {
 		m = "direct"
+	} else if c.Mode == 2 {
+		m = "concurrent"
+		if c.ViaScope {
+			m = "concurrent-scope"
+		}
 	}
 	return fmt.Sprintf("%s/timer=%d/cb=%s", m, c.TimerType, c.Cb)
 }
@@ -1378,9 +1628,12 @@ func init() {
 		toCoq := true
 		one := func(c *c17Case, tag string) {
 			var out c17Out
-			if c.Mode == 0 {
+			switch c.Mode {
+			case 0:
 				out = c17RunScope(c)
-			} else {
+			case 2:
+				out = c17RunConc(c)
+			default:
 				out = c17RunDirect(c)
 			}
 			may := c17MayHitF17(c)
@@ -1478,6 +1731,24 @@ func init() {
 			c := c17GenDirect(ctx.R, i)
 			one(&c, "direct")
 		}
+		// concurrent first uses: G goroutines, same name and tag keys, at once
+		t0 := time.Now()
+		budget := time.Duration(ctx.N(4, 30)) * time.Second
+		nconc := ctx.N(1500, 20000)
+		rounds := 0
+		for i := 0; i < nconc && time.Since(t0) < budget; i++ {
+			c := c17Case{Mode: 2, TimerType: i % 2, Cb: "fn", DefBMode: 1, DefB: []int64{fbits(0.001), fbits(0.5)},
+				G: 2 + ctx.R.Intn(3), ViaScope: i%4 == 3, Salt: i}
+			for k := ctx.R.Range(3, 6); k > 0; k-- {
+				c.Kinds = append(c.Kinds, ctx.R.Range(1, 4))
+			}
+			rounds += len(c.Kinds)
+			toCoq = i < ctx.N(40, 400)
+			one(&c, "conc")
+		}
+		toCoq = true
+		ctx.Res.Schedules = rounds
+		ctx.Res.Extra["concurrent_rounds"] = rounds
 		ctx.Res.Extra["conflict_sequences"] = nseq
 		ctx.Res.Extra["conflict_max_len"] = maxLen
 		for k, v := range stats {
